@@ -91,6 +91,9 @@ impl NodeIdx {
     pub fn smallest() -> NodeIdx {
         NodeIdx::StartDepot(0)
     }
+    pub fn largest() -> NodeIdx {
+        NodeIdx::EndDepot(Idx::MAX)
+    }
     pub fn idx(&self) -> Idx {
         match self {
             NodeIdx::StartDepot(idx) => *idx,
